@@ -124,6 +124,8 @@ type Script struct {
 	// MutateAfterSend: every sender overwrites its message in place as soon as
 	// the send has returned (legal re-use; the log keeps a snapshot).
 	MutateAfterSend bool `json:"mutate_after_send,omitempty"`
+	// ReuseMD: the handler overwrites each metadata map right after handing it to SetHeader/SendHeader/SetTrailer.
+	ReuseMD bool `json:"reuse_md,omitempty"`
 	// MutateAfterRecv: every receiver scribbles over the message it received
 	// (after the log has taken a snapshot).
 	MutateAfterRecv bool `json:"mutate_after_recv,omitempty"`
@@ -606,28 +608,32 @@ func (r *Run) runHandlerOps(ctx context.Context, stream grpc.ServerStream) {
 			r.rec(Event{Who: "h", Op: "send", Err: err, Pan: pan})
 		case "sethdr", "sendhdr":
 			var err error
+			md := r.mdArg(op.MD)
 			pan := guard(func() {
 				switch {
 				case stream != nil && op.Op == "sethdr":
-					err = stream.SetHeader(op.MD)
+					err = stream.SetHeader(md)
 				case stream != nil:
-					err = stream.SendHeader(op.MD)
+					err = stream.SendHeader(md)
 				case op.Op == "sethdr":
-					err = grpc.SetHeader(ctx, op.MD)
+					err = grpc.SetHeader(ctx, md)
 				default:
-					err = grpc.SendHeader(ctx, op.MD)
+					err = grpc.SendHeader(ctx, md)
 				}
 			})
+			r.scribbleMD(md)
 			r.rec(Event{Who: "h", Op: op.Op, MD: op.MD, Err: err, Pan: pan})
 		case "settrl":
 			var err error
+			md := r.mdArg(op.MD)
 			pan := guard(func() {
 				if stream != nil {
-					stream.SetTrailer(op.MD)
+					stream.SetTrailer(md)
 				} else {
-					err = grpc.SetTrailer(ctx, op.MD)
+					err = grpc.SetTrailer(ctx, md)
 				}
 			})
+			r.scribbleMD(md)
 			r.rec(Event{Who: "h", Op: "settrl", MD: op.MD, Err: err, Pan: pan})
 		case "gate":
 			r.rec(Event{Who: "h", Op: "gate:" + op.Gate, Call: true})
@@ -790,6 +796,28 @@ func (r *Run) newHDest() *tpb.Message {
 		return r.HDest()
 	}
 	return new(tpb.Message)
+}
+
+// mdArg / scribbleMD: with ReuseMD the handler passes a private copy of the metadata to the
+// library and overwrites that map as soon as the call has returned (legal re-use of the map).
+func (r *Run) mdArg(md metadata.MD) metadata.MD {
+	if !r.S.ReuseMD {
+		return md
+	}
+	return md.Copy()
+}
+
+func (r *Run) scribbleMD(md metadata.MD) {
+	if !r.S.ReuseMD {
+		return
+	}
+	for k, vs := range md {
+		for i := range vs {
+			vs[i] = "overwritten-after-the-call"
+		}
+		md[k] = append(vs, "appended-after-the-call")
+	}
+	md["added-after-the-call"] = []string{"x"}
 }
 
 // checkLead: done = sends completed by this sender (including the one that
